@@ -144,7 +144,11 @@ CLAIMED = {
                      'indices carry no state from one row to the next; _mask_to_mirrored_value replaces '
                      'a neighbour pixel by the pixel mirrored through the source centre, or by 0 when '
                      'that mirror is off the image, to be replaced itself or masked, and leaves every '
-                     'other pixel alone; the segmentation image '
+                     'other pixel alone; the cutouts every circular / Kron / flux-fraction measurement of a '
+                     'row is made from (_make_aperture_data) are the data under the aperture box minus '
+                     'that row\'s own local background, the input / non-finite (/ other-label) mask and '
+                     'the error there, with neighbours mirrored about the row\'s own centroid for '
+                     'apermask_method=\'correct\'; the segmentation image '
                      'labels/slices stay coherent under renumbering. The defining formulas are checked bounded with an '
                      'exact-rational pixel-loop oracle incl. row locality.',
                 note='formulas bounded only; known finding F41 (thin-source covariance NaN)'),
@@ -155,7 +159,9 @@ CLAIMED = {
                      '(SourceCatalog, ApertureStats, finder catalogs); SourceCatalog bounding boxes '
                      'of row k come from row k\'s own slices; the per-source loops that compute the local '
                      'background and the flux-fraction inputs carry no state from one row to the next '
-                     '(writes on only one branch of a conditional do not count as definite). Commutation cat[idx].p == cat.p[idx] is checked bounded for every '
+                     '(writes on only one branch of a conditional do not count as definite); the aperture '
+                     'cutouts of a row (_make_aperture_data) are built from that row\'s label, centroid, '
+                     'box and local background only. Commutation cat[idx].p == cat.p[idx] is checked bounded for every '
                      'public property x index form x evaluation order (incl. one-row / one-pixel sources and a '
                      'zero Kron radius).',
                 note='init_attr tuples are literals (checked); commutation is bounded'),
